@@ -1196,6 +1196,12 @@ var c19Fixed = []c19Case{
 	{style: 3, limit: 2048, tokFail: 1, msgs: []c19Msg{{role: "u", content: "m0q a"}, {role: "a", content: "m1q b"}, {role: "u", content: "m2q c"}}},                                 // tokenizer error while measuring
 	{style: c19StyleGenerated, src: `{{ range .Messages }}{{ .Content }}{{ .Nope }}{{ end }}`, limit: 2048, msgs: []c19Msg{{role: "u", content: "m0q a"}, {role: "a", content: "m1q b"}}}, // Execute error while measuring
 	{style: 1, limit: 10},                                                                                                                                                          // empty conversation
+	// finding F5 (typed image tags), one directed case per shape: typed tag of an own image; typed tag without any
+	// image; unfinished typed tag that the template's `]` completes; leading zeros
+	{style: 3, proj: 2, limit: 2048, msgs: []c19Msg{{role: "u", content: "m0q see [img-0]", imgs: []c19Img{{1, true}}}}},
+	{style: 3, proj: 2, limit: 2048, msgs: []c19Msg{{role: "u", content: "m0q [img-5]"}}},
+	{style: 3, proj: 2, limit: 2048, msgs: []c19Msg{{role: "u", content: "m0q a"}, {role: "a", content: "m1q ends with [img-2"}}},
+	{style: 0, proj: 2, limit: 2048, msgs: []c19Msg{{role: "u", content: "m0q [img-00] x", imgs: []c19Img{{1, true}}}, {role: "a", content: "m1q b"}}},
 	{style: 1, proj: 0, limit: 2048, msgs: []c19Msg{{role: "u", content: "m0q a", imgs: []c19Img{{1, true}}}, {role: "u", content: "m1q b"}, {role: "a", content: "m2q c"}}}, // nil projector list: images not charged; adjacent users merged
 	{style: 1, proj: 1, mllama: true, limit: 2048, msgs: []c19Msg{{role: "u", content: "m0q a", imgs: []c19Img{{1, true}}}}},                                                 // mllama without projector: raw image data
 	{style: 0, proj: 2, limit: 2000, msgs: []c19Msg{{role: "u", content: "m0q old", imgs: []c19Img{{1, true}}}, {role: "s", content: "m1q mid"}, {role: "u", content: "m2q [img] and [img] [img]", imgs: []c19Img{{2, true}}}, {role: "a", content: "[img] m3q"}}}, // system message at the cut; more placeholders than images; placeholder without image
